@@ -71,7 +71,9 @@ def gen_case(rng: random.Random, op: str, constraint: Any = "random") -> OpCase:
     if op == "softmax":
         shape = tuple(_distinct_primes(rng, rng.randint(1, 4)))
         dim = rng.randint(-len(shape), len(shape) - 1)
-        return OpCase(op, {"dim": dim, "mult": _mult(rng), "constraint": con(BINARY)}, {"input": shape}, ["input"])
+        # `dtype=`: the computation (and the result) in a wider dtype than the input's, as F.softmax offers
+        return OpCase(op, {"dim": dim, "mult": _mult(rng), "constraint": con(BINARY),
+                           "dtype": rng.choice([None, None, "float64"])}, {"input": shape}, ["input"])
     if op == "dropout":
         shape = tuple(_distinct_primes(rng, rng.randint(1, 4)))
         return OpCase(op, {"p": rng.choice([0.0, 0.1, 0.5, 0.9]), "training": rng.random() < 0.7},
@@ -258,6 +260,8 @@ def call_impl(U: Any, case: OpCase, t: Dict[str, Any], rng_seed: int = 0) -> tor
     if op == "silu_glu":
         return U.silu_glu(t["input"], t["gate"], mult=c["mult"])
     if op == "softmax":
+        if c.get("dtype"):
+            return U.softmax(t["input"], dim=c["dim"], dtype=getattr(torch, c["dtype"]), constraint=c["constraint"], mult=c["mult"])
         return U.softmax(t["input"], dim=c["dim"], constraint=c["constraint"], mult=c["mult"])
     if op == "dropout":
         return U.dropout(t["input"], c["p"], c["training"])
@@ -304,6 +308,8 @@ def call_ref(case: OpCase, t: Dict[str, Any], rng_seed: int = 0, sum_losses: boo
     if op == "silu_glu":
         return t["input"] * (t["gate"] * torch.sigmoid(t["gate"] * c["mult"]))
     if op == "softmax":
+        if c.get("dtype"):
+            return F.softmax(t["input"] * c["mult"], dim=c["dim"], dtype=getattr(torch, c["dtype"]))
         return F.softmax(t["input"] * c["mult"], dim=c["dim"])
     if op == "dropout":
         return F.dropout(t["input"], c["p"], c["training"])
